@@ -235,7 +235,8 @@ func lenAtLeast(isX func(ssa.Value) bool, min int64) Guard {
 		if b, ok := call.Call.Value.(*ssa.Builtin); !ok || b.Name() != "len" {
 			return false
 		}
-		return isX(call.Call.Args[0])
+		// (inside a validate-or-die helper the operand is the helper's parameter: the caller's argument)
+		return isX(call.Call.Args[0]) || isX(rv(call.Call.Args[0]))
 	}
 	return GCmp(func(x ssa.Value, op token.Token, y ssa.Value) bool {
 		if isLen(x) {
